@@ -103,6 +103,62 @@ pub fn run(ctx: &mut Ctx) {
                 }
             }
         }
+        // structured vectors: in each interleaved block the data starts with a word that is itself a codeword of
+        // the same code (so the division register returns to all-zero), followed by runs of zeros and a short tail;
+        // also blocks that are entirely zero next to non-zero ones
+        let n_struct = ctx.budget(16 * 40, 16 * 1500);
+        for i in 0..n_struct as usize {
+            let mut v = vec![0u8; r.data];
+            for b in 0..r.blocks {
+                let pos: Vec<usize> = (b..r.data).step_by(r.blocks).collect();
+                let nd = pos.len();
+                let style = (i + b * 3) % 6;
+                let mut seq = vec![0u8; nd];
+                match style {
+                    0 => {} // all-zero block
+                    1 | 2 | 3 => {
+                        let k = r.k();
+                        if nd > k + 1 {
+                            let a = ctx.rng.range(1, nd - k);
+                            let m = ctx.rng.bytes(a);
+                            let par = rs.parity(m.iter().copied());
+                            seq[..a].copy_from_slice(&m);
+                            seq[a..a + k].copy_from_slice(&par);
+                            // rest: zeros (style 1), zeros then one non-zero (2), zeros then random tail of 1..3 (3)
+                            let restn = nd - a - k;
+                            if style == 2 && restn > 0 {
+                                seq[nd - 1] = 1 + ctx.rng.below(255) as u8;
+                            } else if style == 3 && restn > 3 {
+                                let t = ctx.rng.range(1, 3);
+                                for x in 0..t {
+                                    seq[a + k + ctx.rng.below(restn - t) + x] = ctx.rng.byte();
+                                }
+                            }
+                        } else {
+                            seq[0] = ctx.rng.byte();
+                        }
+                    }
+                    4 => {
+                        // leading zeros then random
+                        let z = ctx.rng.below(nd);
+                        for e in seq.iter_mut().skip(z) {
+                            *e = ctx.rng.byte();
+                        }
+                    }
+                    _ => {
+                        // random then trailing zeros
+                        let z = ctx.rng.below(nd);
+                        for e in seq.iter_mut().take(z) {
+                            *e = ctx.rng.byte();
+                        }
+                    }
+                }
+                for (j, p) in pos.iter().enumerate() {
+                    v[*p] = seq[j];
+                }
+            }
+            eval(ctx, r, &rs, &v, "structured");
+        }
         // encoder outputs: parity of DataMatrix::codewords() as shipped
         let n_enc = ctx.budget(16 * 20, 16 * 400);
         for _ in 0..n_enc {
